@@ -8,7 +8,7 @@ def obligations(tier):
             lib=["ideal_substdio.c"],
             sysrename=["_exit"],
             grid=[{"N": n} for n in ns],
-            unwind=lambda p: {"blast": p["N"] + 2, "substdio_put": 100},
+            unwind=lambda p: {"blast": p["N"] + 2, "substdio_put": p["N"] + 3},
             unwind_default=lambda p: 3 * p["N"] + 10,
             timeout=900 if tier == "quick" else 3000,
             functions=["qmail-remote.c:blast", "qmail-remote.c:out", "qmail-remote.c:zero",
